@@ -18,6 +18,38 @@ CLAIMED = {
         "direct ledger predicate on the implementation's own records.",
    note=TRUST + "Modelled: quote oracle as a function argument; non-base currencies always 0.",
    design="7/C01", technique="Coq proof by induction over operation lists (ledger invariant) + model/implementation correspondence check"),
+ 'C02': dict(
+   text="Machine-checked theorems (props/C02.v): for every accepted sequence of fills and price marks on a portfolio, per asset, "
+        "reported quantity == signed sum of fills, listed iff that sum is non-zero, no duplicate keys, price = latest fill or "
+        "accepted mark (refinement to the tracked abstract state (net, last price), proved as an invariant over operation lists); "
+        "market value and equity by definition of the getters. Tied to /repo by fill/mark sequences through the real broker and "
+        "directly on Portfolio, comparing get_portfolio_as_dict (keys in order, quantity, market value), total market value and equity.",
+   note=TRUST + "Theorem is at the Portfolio level (explicit timestamps); that broker fills are exactly Portfolio transactions is C04/C05.",
+   design="7/C02", technique="Coq proof: invariant by induction over operation lists (refinement to an abstract (net, price) map) + correspondence check"),
+ 'C03': dict(
+   text="Machine-checked theorems over rationals, i.e. all real-valued quantities, prices and commissions (props/C03.v): the accounting "
+        "invariant of Position is established by the opening fill and preserved by every effective fill; from it total P&L == "
+        "market value - sum(price x signed qty) - sum(commissions) == realised + unrealised in every sign regime, unrealised == "
+        "(price - average cost incl. the open side's commission) x net; re-marking changes the price only. Tied to /repo by "
+        "ladders of 1-60 fills (integer and real quantities) + all sign patterns of short ladders on the real Portfolio/Position.",
+   note=TRUST + "Sub-unit buys (0 < q < 1) are ignored by Position (subunit_buy_ignored) and are outside the documented contract; excluded by the [effective] hypothesis.",
+   design="7/C03", technique="Coq proof: field/lra algebra over Q on an invariant proved by induction over fills + correspondence check"),
+ 'C04': dict(
+   text="Machine-checked theorems (props/C04.v): exchange-hours characterisation for every instant (with the 14:30:00 / 21:00:00 "
+        "boundaries); submitting changes nothing but the queue; an update outside hours changes no queue, cash, history or quantity; "
+        "a successful update inside hours emits exactly one full-quantity fill per pending order, sells first then buys in queue order, "
+        "and empties the queues; over any accepted operation history fills + pending ids are a permutation of the submitted ids "
+        "(never twice, never dropped). Tied to /repo by submission/update interleavings incl. boundary seconds, and the exchange "
+        "predicate compared on every second of a week (thorough).",
+   note=TRUST + "Conservation theorem is stated for histories whose operations are all accepted (refused ones are no-ops by C15; an update failing for a missing quote is outside the property).",
+   design="7/C04", technique="Coq proof: queue invariants + permutation argument by induction over operation lists; lia for the calendar + correspondence check"),
+ 'C05': dict(
+   text="Machine-checked theorems (props/C05.v): every fill of every update in every state is stamped with the update time, priced at "
+        "the data handler's ask (buy) / bid (sell) at that time, with commission == fee model on price x quantity rounded half-even; "
+        "fills happen only in updates; zero/percentage fee formulas, non-negativity, and buy/sell symmetry (round-half-even is odd). "
+        "Tied to /repo by broker runs with bid != ask and rates in [0,1], and the fee models alone on random considerations.",
+   note=TRUST + "BacktestDataHandler returns (bid, bid); the property is checked at the broker/data-handler interface with a stub whose bid != ask.",
+   design="7/C05", technique="Coq proof by induction over the executed order list; Q arithmetic lemmas + correspondence check"),
  'C15': dict(
    text="Machine-checked theorems (props/C15.v: rejected_is_noop for every state and every non-update request, "
         "backwards_update_is_noop / update_validation_is_noop for the repaired clock update, portfolio_rejected_is_noop, "
